@@ -31,3 +31,55 @@ Definition summary (cs : list vcase) :=
   (bad_indices ok_case cs, length cs,
    fold_right (fun c s => length (vc_obs c) + s)%nat 0%nat cs,
    count_true (fun c => is_ok (validate (vc_entry c) (vc_d c))) cs).
+
+(* ------------------------------------------------------------------ compact case files
+   Several hundred thousand descriptors as Gallina records take minutes to parse; the harness therefore packs
+   one descriptor and its observed outcomes into ONE primitive 63-bit integer literal (fast to parse), fields
+   from the low bits upwards:
+     entry 5 bits (index into `entries`) | level 3 (index into `levels`) | functional 3 | bin method 1 |
+     n_bins 3 (index into [-1;0;1;2;3;10]) | n_obs 5 | n_pred 5 | n_feat 5 (0 = None, else n+1) | n_w 5 (same) |
+     rank 1 | sign 2 | kind 3 | number of outcomes 2 | outcome 3 bits each (O V N T S U X = 0..6)
+   Anything that does not decode counts as a disagreement.  The primitive integers are used for decoding only. *)
+From Coq Require Import Uint63.
+
+Definition fld (x off w : int) : nat := Z.to_nat (to_Z ((x >> off) land ((1 << w) - 1))%uint63).
+
+(* the level axis of the harness: exact values of the doubles -1, 0, 5e-324, 0.5, 1-2^-53, 1, 2 *)
+Definition lvl_tiny : Q := Qmake 1 (Pos.pow 2 1074).
+Definition lvl_one_m : Q := Qmake (2 ^ 53 - 1) (Pos.pow 2 53).
+Definition levels : list Q := [(-1 # 1)%Q; 0%Q; lvl_tiny; (1 # 2)%Q; lvl_one_m; 1%Q; 2%Q].
+Definition entries : list entry :=
+  [E_ident; E_bias; E_marginal; E_ctor; E_per_obs; E_call; E_decompose; E_decompose_infer; E_isoreg; E_isofit;
+   E_bin_feature; E_pd; E_plot_rel; E_plot_bias; E_plot_marginal; E_plot_murphy; E_val2; E_valsame].
+Definition functionals : list functional := [Fmean; Fmedian; Fexpectile; Fquantile; Fother].
+Definition nbins_tab : list Z := [(-1)%Z; 0%Z; 1%Z; 2%Z; 3%Z; 10%Z].
+Definition signs : list wsign := [AllPos; HasZero; HasNeg].
+Definition kinds : list skind := [KHES; KSquared; KPoisson; KGamma; KLogLoss; KHQS; KPinball; KElementary].
+Definition outcomes : list outcome :=
+  [Ok; ValueError; NotImplementedError; OtherException TypeErr; OtherException ShapeErr; OtherException UnboundLocal].
+Definition olen (n : nat) : option nat := match n with O => None | S k => Some k end.
+
+Fixpoint dec_codes (x : int) (off : int) (n : nat) : list outcome :=
+  match n with
+  | O => []
+  | S n' => nth (fld x off 3) outcomes (OtherException Unexpected) :: dec_codes x (off + 3)%uint63 n'
+  end.
+
+Definition dec_case (x : int) : option vcase :=
+  match nth_error entries (fld x 0 5), nth_error levels (fld x 5 3), nth_error functionals (fld x 8 3),
+        nth_error nbins_tab (fld x 12 3), nth_error signs (fld x 36 2), nth_error kinds (fld x 38 3) with
+  | Some e, Some lv, Some f, Some nb, Some sg, Some k =>
+      Some (mkvcase e
+              (mkD lv f (match fld x 11 1 with O => BMvalid | _ => BMother end) nb (fld x 15 5) (fld x 20 5)
+                   (olen (fld x 25 5)) (olen (fld x 30 5)) (match fld x 35 1 with O => R1 | _ => R2 end) sg k)
+              (dec_codes x 43 (fld x 41 2)))
+  | _, _, _, _, _, _ => None
+  end.
+
+Definition ok_opt (c : option vcase) : bool := match c with Some v => ok_case v | None => false end.
+(* the cases come in blocks (a list of lists) so that no list literal is nested deeply *)
+Definition summary_int (blocks : list (list int)) :=
+  let cs := map dec_case (concat blocks) in
+  (bad_indices ok_opt cs, length cs,
+   fold_right (fun c n => match c with Some v => (length (vc_obs v) + n)%nat | None => n end) 0%nat cs,
+   count_true (fun c => match c with Some v => is_ok (validate (vc_entry v) (vc_d v)) | None => false end) cs).
